@@ -15,7 +15,7 @@ import time
 
 import z3
 
-REPO_PKG = "/repo/qlasskit"
+REPO_PKG = (os.environ.get("QV_REPO") or "/repo") + "/qlasskit"
 ALIAS = "qlasskit_sx"
 
 
